@@ -56,6 +56,9 @@ func convertScenarioToAmmo(sc config.ScenarioConfig, reqs map[string]config.Requ
 			return nil, fmt.Errorf("failed to parse shoot %s: %w", sh, err)
 		}
 		if name == "sleep" {
+			if len(result.Requests) == 0 {
+				return nil, fmt.Errorf("sleep() must follow a request, but it is the first step of the scenario")
+			}
 			result.Requests[len(result.Requests)-1].Sleep += time.Millisecond * time.Duration(cnt)
 			continue
 		}
